@@ -278,8 +278,8 @@ def run_cli_case(case, ctx, res):
                 for h in hs:
                     stated.setdefault(h, []).extend(years)
                 last_key = key
-                # several --year options give "min - max" (also when they are equal: the documented behaviour of repeating the option)
-                yt = None if not years else (years[0] if len(years) == 1 else f"{min(years)} - {max(years)}")
+                # several --year options give "min - max"; one distinct value gives that year
+                yt = None if not years else (years[0] if len(set(years)) == 1 else f"{min(years)} - {max(years)}")
                 last_lines = {notice.build(key, yt, h) for h in hs}
             if not ok:
                 continue
